@@ -610,6 +610,26 @@ def run(case, ctx):
                             'tdda detect %s parquet output differs from the '
                             'library\'s: %s' % (' '.join(dflags),
                                                 str(e)[:300]))
+    if e1 and v.detection is not None:
+        # the row numbers in the file are positions in the input file (from
+        # 1), whatever else the file holds: compared with the index of the
+        # in-memory detection frame, which no file-writing code touches
+        ok_d, det = quiet(v.detected)
+        try:
+            f = (pd.read_csv(cli_out, dtype=str, keep_default_na=False)
+                 if case['outfmt'] == 'csv' else pd.read_parquet(cli_out))
+        except Exception:
+            f = None
+        if ok_d and det is not None and f is not None and (
+                'RowNumber' in f.columns):
+            want_rn = [int(i) + 1 for i in det.index]
+            got_rn = [int(x) for x in f['RowNumber']]
+            out.label('row-number-column')
+            if got_rn != want_rn:
+                out.violate('detect', 'row-numbers',
+                            'tdda detect %s: RowNumber column %r, positions '
+                            'of the detected records (from 1) %r'
+                            % (' '.join(dflags), got_rn, want_rn))
     if use_sub:
         sub_out = os.path.join(d, 'sub_out.' + case['outfmt'])
         argv2 = [sub_out if a == cli_out else a for a in argv]
